@@ -352,6 +352,15 @@ def rule_sym(repo, tier):
             ok = is_transpose_of(L_, R_)
             if ok:
                 n_ok += 1
+                # orientation: a covariance carried through the linear map X (a model Jacobian A / C, a gain K) is X S X^T - the map itself on the left
+                isT = lambda z: (isinstance(z, ast.Attribute) and z.attr in ('mT', 'T', 'mH', 'H')) or \
+                    (isinstance(z, ast.Call) and isinstance(z.func, ast.Attribute) and z.func.attr in ('transpose', 'swapaxes', 'swapdims', 'adjoint', 't'))
+                model_map = any((dotted(x) or '').startswith('self.model.') for x in ast.walk(R_))
+                res.inst({'function': f.fq, 'congruence': src(node)[:60], 'map_on_the_left': not (isT(L_) and not isT(R_))}, ('orient', src(node)[:80]))
+                if isT(L_) and not isT(R_) and model_map:
+                    res.add(Finding('C13.SYM', f, 'covariance term `%s`: a covariance carried through the linear map %s is %s S %s^T; here the TRANSPOSED map is on the '
+                                    'left, which propagates the covariance with the adjoint of the dynamics (equal only for a symmetric matrix)'
+                                    % (src(node)[:60], src(R_)[:20], src(R_)[:20], src(R_)[:20]), construct='transposed map on the left ' + src(R_)[:30]))
             else:
                 # a chain like  P @ C.mT @ $inv  is a gain, not a covariance term: only flag products whose middle factor is a covariance
                 mid_cov = any(isinstance(x, ast.Name) and x.id in ('P', 'Q', 'R') for x in ast.walk(M_)) or \
@@ -380,10 +389,11 @@ def rule_sigma(repo, tier):
     parameter.  The points of a draw are spread by sqrt(n + k) and its weights are k/(n+k), 1/(2(n+k)): weights of one draw applied to the
     points of another one scale every covariance by the ratio of the two (n + k)."""
     res = RuleResult('C13.SIGMA', 'UKF.forward: every weighted mean / covariance uses the weights returned by the same sigma_weight_points call as '
-                     'the points it weighs, and all draws pass the same spread parameter k', floor=5)
+                     'the points it weighs, all draws pass the same spread parameter k, and the points handed to the observation model are re-drawn from the predicted covariance', floor=5)
     f = repo.func(UKF, 'UKF.forward')
     tags = {}          # variable -> set of ('p'|'w', draw number)
     draws = []         # (call node, k expression source)
+    obs_from, predcov, from_pred = [], set(), {}
 
     def deps(e):
         out = set()
@@ -422,9 +432,19 @@ def rule_sigma(repo, tier):
         for st in body:
             if isinstance(st, ast.Assign):
                 scan_uses(st.value)
+                for c_ in ast.walk(st.value):
+                    if isinstance(c_, ast.Call) and isinstance(c_.func, ast.Attribute) and c_.func.attr == 'observation' and c_.args:
+                        obs_from.append((c_, {t[1] for t in deps(c_.args[0]) if t[0] == 'p'}))
+                is_pred = isinstance(st.value, ast.Call) and isinstance(st.value.func, ast.Attribute) and st.value.func.attr == 'compute_cov' and \
+                    len(st.value.args) >= 4 and any(isinstance(x, ast.Name) and x.id == 'Q' for x in ast.walk(st.value.args[3]))
+                for t in st.targets:
+                    for el in (t.elts if isinstance(t, ast.Tuple) else [t]):
+                        if isinstance(el, ast.Name):
+                            (predcov.add if is_pred else predcov.discard)(el.id)
                 if is_draw(st.value):
                     k = len(draws) + 1
                     c = st.value
+                    from_pred[k] = len(c.args) > 1 and isinstance(c.args[1], ast.Name) and c.args[1].id in predcov
                     kexp = c.args[2] if len(c.args) > 2 else next((kw.value for kw in c.keywords if kw.arg == 'k'), None)
                     draws.append((c, src(kexp) if kexp is not None else '<default>'))
                     for t in st.targets:
@@ -446,8 +466,15 @@ def rule_sigma(repo, tier):
                 for fld in ('body', 'orelse', 'finalbody'):
                     stmts(getattr(st, fld, []) or [])
     stmts(f.node.body)
-    if len(draws) < 2:
-        raise AnalysisError('C13.SIGMA: UKF.forward draws %d sigma sets, expected the prediction and the observation draw' % len(draws))
+    if not draws or not obs_from:
+        raise AnalysisError('C13.SIGMA: UKF.forward draws %d sigma sets / %d observation calls, anchors lost' % (len(draws), len(obs_from)))
+    for c_, ds in obs_from:
+        ok = bool(ds) and from_pred.get(max(ds), False)
+        res.inst({'function': f.fq, 'observation': src(c_)[:60], 'points of draw': sorted(ds), 'drawn from the predicted covariance (with Q)': ok}, ('obs', src(c_)[:60]))
+        if not ok:
+            res.add(Finding('C13.SIGMA', f, 'the sigma points pushed through the observation model (`%s`) are not re-drawn from the predicted mean and the predicted '
+                            'covariance compute_cov(ex, ex, w, Q): the measurement update then spreads the points with the prior covariance only and the process '
+                            'noise Q never reaches the predicted observation, its covariance or the gain' % src(c_)[:60], node=c_, construct='observation points not re-drawn'))
     ks = {k for _, k in draws}
     res.inst({'function': f.fq, 'draws': len(draws), 'spread parameter of each draw': [k for _, k in draws], 'agree': len(ks) == 1}, 'k')
     if len(ks) != 1:
